@@ -18,8 +18,8 @@ Theorem C08_line_thin_no_overflow : forall l st, display_line l ->
   i32 (b_error st) /\ i32 (err_after_test p st).
 Proof. exact thin_display_no_overflow. Qed.
 
-(* ParallelsIterator::new: delta, the perpendicular line, length_squared (i32 products and sum), (2w)^2 and the
-   threshold in i64, the error steps and the initial accumulator (2*dmaj + 2*dmin) / 2 *)
+(* ParallelsIterator::new: delta, the perpendicular line, length_squared (since /repo ebfcc70 computed in i64; the
+   products and the sum even fit i32 at display scale), (2w)^2 and the threshold in i64, the error steps and the initial accumulator (2*dmaj + 2*dmin) / 2 *)
 Theorem C08_line_thick_setup_fits : forall l w, display_line l -> display_width w ->
   let l' := eff_line l in
   i32 (ldx l') /\ i32 (ldy l') /\ i32 (- ldx l') /\
